@@ -1,0 +1,34 @@
+//go:build verif
+
+package encoding
+
+// Contracts for the deductive verifier in /verif (govc). Comment-only file: adds no code.
+
+// YAML -> JSON for the unmarshaler: numbers keep their full textual value (lang.Repr of the decoded number, as a
+// json.Number - never reformatted at a lower precision), booleans and strings are kept, keys become strings, and
+// this is applied at every depth (every list element, every map value).
+//@ func convertNumberToJsonNumber
+//@   prop C05
+//@   opaque Repr
+//@   ensures [full-textual-value] calls(lang.Repr, v) == 1 && result == ret(lang.Repr)
+//@ func toStringKeyMap
+//@   prop C05
+//@   opaque convertSlice, convertKeyToString, convertNumberToJsonNumber, Repr
+//@   ensures [list] typeis(v, []any) ==> calls(convertSlice) == 1 && arg(convertSlice, 0) == unbox(v, []any) && result == ret(convertSlice)
+//@   ensures [map] typeis(v, map[any]any) ==> calls(convertKeyToString) == 1 && arg(convertKeyToString, 0) == unbox(v, map[any]any) && typeis(result, map[string]any) && unbox(result, map[string]any) == ret(convertKeyToString)
+//@   ensures [bool-and-string-kept] typeis(v, bool) || typeis(v, string) ==> result == v && calls(Repr) == 0 && calls(convertNumberToJsonNumber) == 0
+//@   ensures [number-as-json-number] typeis(v, int) || typeis(v, int64) || typeis(v, uint64) || typeis(v, float64) || typeis(v, float32) || typeis(v, uint) || typeis(v, int32) ==> calls(convertNumberToJsonNumber, v) == 1 && typeis(result, json.Number) && unbox(result, json.Number) == ret(convertNumberToJsonNumber)
+//@ func convertSlice
+//@   prop C05
+//@   opaque toStringKeyMap
+//@   loop 1 invariant -1 <= rangeindex && len(ret) == len(vs) && fresh(ret)
+//@   loop 1 iteration-ensures [every-element-converted-in-place] calls(toStringKeyMap, at_head(vs[rangeindex + 1])) == 1 && ret[rangeindex] == ret(toStringKeyMap)
+//@ func convertKeyToString
+//@   prop C05
+//@   opaque toStringKeyMap, Repr
+//@   loop 1 iteration-ensures [entry-under-its-textual-key] calls(lang.Repr, k) == 1 && calls(toStringKeyMap, v) == 1 && has(ret, ret(lang.Repr)) && ret[ret(lang.Repr)] == ret(toStringKeyMap)
+//@ func YamlToJson
+//@   prop C05
+//@   opaque toStringKeyMap
+//@   ensures [bad-yaml] ret(yaml.Unmarshal) != nil ==> result0 == nil && result1 == ret(yaml.Unmarshal)
+//@   ensures [converted-then-encoded] ret(yaml.Unmarshal) == nil ==> calls(toStringKeyMap) == 1 && calls(Encode) == 1 && arg(Encode, 1) == ret(toStringKeyMap) && before(toStringKeyMap, Encode)
